@@ -1,22 +1,23 @@
+\* timing store, quick: 2 wavefronts, 2 lanes, 2 SIMDs, 2 scalar granules, all behaviours of <= 3 steps
 SPECIFICATION PSpec
 CONSTANTS
   Mode = "tim"
   WFs = {1, 2}
   Lanes = {0, 1}
-  Counts = {0, 1, 2, 3}
-  Vals = {0, 1}
+  Counts = {0, 1, 2}
+  Zero = 0
   ZeroOf <- MCZeroOf
   OrVal <- MCOr
-  NSimd = 1
-  SFileSize = 8
-  LaneStride = 4
+  NSimd = 2
+  SFileSize = 4
+  LaneStride = 3
   SGran = 2
   VGran = 1
   ESRegs = 4
   EVRegs = 4
-  AllocS = {3, 4}
+  AllocS = {2}
   AllocV = {1, 2}
-  MaxOps = 4
+  MaxOps = 3
   Deviations = {}
 INVARIANTS Refines RYW Alias
 PROPERTIES Frame
